@@ -46,6 +46,11 @@ func genConc(r *rand.Rand, tier string) input {
 			continue
 		}
 		o := op{K: "send", T: r.IntN(in.Threads)}
+		if r.IntN(4) == 0 {
+			// pipelined submission: several batches handed to the channel writer back to
+			// back (SubmitLocal) before any result is awaited
+			o.K, o.N = "pipe", 2+r.IntN(3)
+		}
 		m := 1 + r.IntN(4)
 		if r.IntN(8) == 0 {
 			m = 5 + r.IntN(6)
@@ -66,6 +71,11 @@ func genConc(r *rand.Rand, tier string) input {
 			}
 			o.Items = append(o.Items, it)
 			hist = append(hist, it)
+		}
+		if o.K == "pipe" {
+			for k := range o.Items {
+				o.Items[k].Ch = o.Items[0].Ch // one channel: the order of admission is the order of the calls
+			}
 		}
 		in.Ops = append(in.Ops, o)
 	}
@@ -140,6 +150,12 @@ func runConc(in input) vh.Result {
 	var mu sync.Mutex
 	var calls []callRec
 	stopped := false
+	piped := false
+	for _, o := range in.Ops {
+		if o.K == "pipe" {
+			piped = true
+		}
+	}
 	var wg sync.WaitGroup
 	for t := 0; t < in.Threads; t++ {
 		wg.Add(1)
@@ -155,6 +171,71 @@ func runConc(in input) vh.Result {
 					mu.Lock()
 					stopped = true
 					mu.Unlock()
+				case "pipe":
+					// split the items into o.N consecutive sub-batches, submit them all, then wait
+					nb := o.N
+					if nb < 1 {
+						nb = 1
+					}
+					if nb > len(o.Items) {
+						nb = len(o.Items)
+					}
+					if nb == 0 {
+						continue
+					}
+					ch := o.Items[0].Ch
+					target := channelappend.AuthorityTarget{ChannelID: channelappend.ChannelID{ID: chName(ch), Type: 2}, LeaderNodeID: 1, Epoch: 1, LeaderEpoch: 1}
+					type pend struct {
+						rc  callRec
+						fut *channelappend.Future
+						err error
+					}
+					var pends []pend
+					per := (len(o.Items) + nb - 1) / nb
+					for k0, sub := 0, 0; k0 < len(o.Items); k0, sub = k0+per, sub+1 {
+						k1 := k0 + per
+						if k1 > len(o.Items) {
+							k1 = len(o.Items)
+						}
+						items := make([]channelappend.SendBatchItem, 0, k1-k0)
+						rc := callRec{id: 1000*(j+1) + sub}
+						for k := k0; k < k1; k++ {
+							it := o.Items[k]
+							tg := tagBase[j] + uint64(k)
+							rc.items = append(rc.items, it)
+							rc.tags = append(rc.tags, tg)
+							items = append(items, channelappend.SendBatchItem{Context: context.Background(), Command: channelappend.SendCommand{
+								FromUID: it.UID, ClientMsgNo: it.CNo, ChannelID: chName(ch), ChannelType: 2,
+								Payload: []byte(it.Pay), TraceID: fmt.Sprintf("t%d", tg),
+							}})
+						}
+						rc.start = ticket.Add(1)
+						fut, err := group.SubmitLocal(context.Background(), target, items)
+						rc.end = ticket.Add(1) // admitted (or refused): later calls are submitted after this one
+						pends = append(pends, pend{rc: rc, fut: fut, err: err})
+						if in.MaxLatUS > 0 {
+							// let the writer issue the effect of this sub-batch before the next one arrives
+							time.Sleep(time.Duration(mix(in.Seed, uint64(j), uint64(sub))%400) * time.Microsecond)
+						}
+					}
+					for _, pd := range pends {
+						rc := pd.rc
+						if pd.err != nil {
+							rc.results = make([]channelappend.SendBatchItemResult, len(rc.items))
+							for k := range rc.results {
+								rc.results[k].Err = pd.err
+							}
+						} else {
+							res, err := pd.fut.Wait(context.Background())
+							if err != nil {
+								panic(err)
+							}
+							rc.results = res
+						}
+						mu.Lock()
+						calls = append(calls, rc)
+						mu.Unlock()
+					}
 				case "send":
 					items := make([]channelappend.SendBatchItem, len(o.Items))
 					tags := make([]uint64, len(o.Items))
@@ -237,7 +318,7 @@ func runConc(in input) vh.Result {
 	return vh.Result{
 		Coq:   vh.App("C29Hist", vh.B(ordered), vh.List(coqCalls), vh.List(coqSends), vh.List(coqLogs)),
 		Obs:   map[string]any{"sends": nSends, "success": nSucc, "errors": nErr, "commits": commits},
-		Class: fmt.Sprintf("conc,limit=%d,succ=%v,dup=%v,err=%v,busy=%v,stop=%v,postcommit=%v", limit, nSucc > 0, nDup > 0, nErr > 0, nBusy > 0, stopped, postCommit),
+		Class: fmt.Sprintf("conc,limit=%d,succ=%v,dup=%v,err=%v,busy=%v,stop=%v,postcommit=%v,pipe=%v", limit, nSucc > 0, nDup > 0, nErr > 0, nBusy > 0, stopped, postCommit, piped),
 		Trivial: nSends < 2,
 	}
 }
